@@ -356,6 +356,7 @@ C16_EXPRS = [
     "str(noisy(a))", "sorted([noisy(a)])", "(noisy(i) for i in (1, 2))", "list(noisy(i) for i in (1, 2))",
     "[i for i in (1, 2) if noisy(i)]", "[i for i in [noisy(1)]]", "[j for i in (1,) for j in [noisy(i)]]",
     "a == noisy(a)", "not noisy(a)", "obj.m(a)", "obj.attr", "Obj().m(a)", "Obj()", "Quiet()", "Loud()",
+    "Blank()", "NewLoud()", "Child()", "Both()", "[Loud() for _ in (1,)]", "Blank() and Loud()", "Loud if a else Blank",
     "''.join(['x'])", "'x'.upper()", "TAPE.pop()", "effect()", "cond()", "inp()", "max(a, noisy(a))", "a", "7000", "None",
     "'doc'", "...", "a[0] if 0 else 1", "(yield_ := noisy(a))", "(b := a)", "pure(noisy(a))", "pure(pure(a))",
     "noisy", "pure", "[pure, noisy][1](a)", "{'k': noisy}['k'](a)", "getattr(obj, 'm')(a)", "print", "print(a)",
@@ -407,6 +408,29 @@ class Quiet:
 class Loud:
     def __init__(self):
         print("Loud")
+
+
+class Blank:
+    def __init__(self):
+        pass
+
+
+class NewLoud:
+    def __new__(cls):
+        print("NewLoud")
+        return object.__new__(cls)
+
+
+class Child(Loud):
+    pass
+
+
+class Both:
+    def __new__(cls):
+        return object.__new__(cls)
+
+    def __init__(self):
+        print("Both")
 
 
 obj = Obj()
